@@ -340,5 +340,10 @@ def r7_numeric_conversion(chk):
     chk.floor('C11.R7', 1, 't_NUMBER')
 
 
+def r8_actions_cannot_raise_typeerror(chk):
+    from rules.C02 import r2b_operand_shapes
+    r2b_operand_shapes(chk, rule='C11.R8')
+
+
 RULES = [r1_located_package_errors, r2_state_totality, r3_progress_and_token_types, r4_line_accounting, r5_p_error,
-         r6_parse_result, r7_numeric_conversion]
+         r6_parse_result, r7_numeric_conversion, r8_actions_cannot_raise_typeerror]
